@@ -243,16 +243,20 @@ def c20_extra(run, tier, bins):
             run.proof_problems.append(err)
             continue
         run.programs += 1
-        label = "stream@features[" + (fs or "none") + "]"
-        run.run_stream(b, "stream", ["--cases", cases, "--max-samples", maxs], label)
-        rec = os.path.join(os.path.dirname(os.path.dirname(os.path.abspath(__file__))), ".cache", f"{run.pid}-{label}.rec")
         d = {}
-        for line in open(rec):
-            m = re.search(r"\bid=(\S+)", line)
-            b2 = re.search(r"\bimpl_bytes=(\S+)", line)
-            i2 = re.search(r"\bimpl=(\S+)", line)
-            if m:
-                d[m.group(1)] = (hashlib.md5(b2.group(1).encode()).hexdigest() if b2 else "none", i2.group(1) if i2 else "?", line)
+        # the general corpus, and streams of more than 1024 / 2048 frames (frame numbers whose coded length
+        # changes: the precomputed frames of `par` builds and the counted ones of serial builds must agree)
+        for (tag, args) in [("", ["--cases", cases, "--max-samples", maxs]),
+                            ("mf:", ["--cases", 2 if tier == "quick" else 12, "--max-samples", 36000 if tier == "quick" else 70000, "--focus", "manyframes-mt"])]:
+            label = "stream@features[" + (fs or "none") + "]" + tag.rstrip(":")
+            run.run_stream(b, "stream", args, label)
+            rec = os.path.join(os.path.dirname(os.path.dirname(os.path.abspath(__file__))), ".cache", f"{run.pid}-{label}.rec")
+            for line in open(rec):
+                m = re.search(r"\bid=(\S+)", line)
+                b2 = re.search(r"\bimpl_bytes=(\S+)", line)
+                i2 = re.search(r"\bimpl=(\S+)", line)
+                if m:
+                    d[tag + m.group(1)] = (hashlib.md5(b2.group(1).encode()).hexdigest() if b2 else "none", i2.group(1) if i2 else "?", line)
         digests[fs] = d
     # call histories on one long-lived thread: the same sequence of calls must give the same results in
     # every build (without `par`, "multi-thread" encodes run on the calling thread and share its scratch
